@@ -332,11 +332,37 @@ def finish(chk: Check, t0: float, replay_filter=None) -> int:
     return 1 if violations else 0
 
 
+def private_helper_resolver(idx: Index):
+    """callee text -> FunctionDef for *private* helpers (leading underscore, not dunder): `_helper(...)` at module level and
+    `self._helper(...)` / `cls._helper(...)` / `Class._helper(...)`.  Public methods stay opaque (rules name them)."""
+    table = {}
+    dup = set()
+    for rel, m in idx.modules.items():
+        for q, n in m.defs.items():
+            if not isinstance(n, ast.FunctionDef):
+                continue
+            short = q.split(".")[-1]
+            if not short.startswith("_") or short.startswith("__"):
+                continue
+            keys = [q] if "." in q else [short]
+            if "." in q:
+                keys += [f"self.{short}", f"cls.{short}"]
+            for k in keys:
+                if k in table and table[k] is not n:
+                    dup.add(k)
+                table[k] = n
+    for k in dup:
+        table.pop(k, None)
+    return lambda name: table.get(name)
+
+
 def run_property(pid: str, fn, tier: str) -> int:
     t0 = time.time()
     try:
         idx = Index(REPO)
         chk = Check(pid, idx, tier)
+        from . import symx as _symx
+        _symx.AUTO_INLINE = private_helper_resolver(idx)
         fn(chk)
         if not chk.obs:
             raise AnalysisError("no obligations were generated (vacuous run)")
